@@ -470,6 +470,24 @@ theorem deb_plan_to_bytes_and_back (H : Hashes) (fs : Bytes → Bytes) (now imt 
     obtain ⟨p, hp, rfl⟩ := List.mem_map.mp hs
     exact hnl p hp
 
+/-- **apk, from the plan to the bytes and back**: the data items the model of apk.createFilesInsideTarGz computes from
+    a plan, placed after any signature and control members, give – once the gzip members are decompressed and
+    concatenated – ONE tar stream that an independent reader takes apart into signature, control and data members in
+    that order; the data members are the model's items, and each regular file and symlink among them carries the record
+    `APK-TOOLS.checksum.SHA1 = hex SHA-1 of the bytes stored in that very member` -/
+theorem apk_plan_to_bytes_and_back (H : Hashes) (fs : Bytes → Bytes) (plan : List Content)
+    (sig : Option (List Tar.PMember)) (control : List Tar.PMember)
+    (hm : ∀ m ∈ (sig.getD []) ++ control ++ (apkData H fs plan).map apkToPax, PaxOK m) :
+    Tar.paxRead (Pkg.apkStream sig control ((apkData H fs plan).map apkToPax))
+        = some ((sig.getD []) ++ control ++ (apkData H fs plan).map apkToPax)
+    ∧ ∀ c ∈ plan, isDirType c.type = false →
+        (apkToPax (apkStep H fs c).1).pax = [(b!"APK-TOOLS.checksum.SHA1", hexOf (H.sha1 (apkToPax (apkStep H fs c).1).body))] := by
+  refine ⟨apk_stream_roundtrip sig control _ hm, ?_⟩
+  have h := apk_data_reads_back_model_items H fs plan (fun it hit => hm (apkToPax it) (by
+    simp only [List.mem_append, List.mem_map]
+    exact Or.inr ⟨it, hit, rfl⟩))
+  exact h.2
+
 /-- non-vacuity: a concrete deb (uncompressed members, one data file, an md5sums member) is read back -/
 example :
     Pkg.readDeb some some (Pkg.debFile 1700000000 id id (b!"data.tar")
